@@ -195,12 +195,6 @@ Definition clean_of_d (ds : dstate) : node -> option content :=
 Definition ran_since (before after : hstate) : list edge :=
   firstn (length (h_trace after) - length (h_trace before)) (h_trace after).
 
-(* every hidden read that is a source exists *)
-Definition hidden_srcs_present (st : hstate) : bool :=
-  edges_all g (fun e =>
-    forallb (fun i => negb (is_source g i) || match h_disk st i with Some _ => true | None => false end)
-            (hid e)).
-
 (* the two variants side by side: the deps manifest and the inlined manifest *)
 Definition both_accept (ds : dstate) (st : hstate) (targets : list node) : bool :=
   match dscan ds targets, scan (graph_of (inline g hid) st) (world_of st) targets with
@@ -208,16 +202,15 @@ Definition both_accept (ds : dstate) (st : hstate) (targets : list node) : bool 
   | _, _ => false
   end.
 
-(* side condition on a history: whenever a build is requested, every hidden read that is a source
-   file exists (the other case is the property's "missing one makes the statement dirty rather
-   than being an error", where the two manifests differ BY DESIGN: a missing declared input is an
-   error), and neither variant refuses the build *)
+(* side condition on a history: neither variant refuses a requested build.  (They can differ
+   there BY DESIGN: a missing declared input is an error, a missing recorded one only makes the
+   statement dirty -- theorem C10_missing_dep_dirty and Example ExD.missing_dep_dirty.) *)
 Fixpoint hist_side (ds : dstate) (st : hstate) (h : list hstep) : bool :=
   match h with
   | [] => true
   | x :: h' =>
     match x with
-    | Build targets => hidden_srcs_present (d_h ds) && both_accept ds st targets
+    | Build targets => both_accept ds st targets
     | _ => true
     end
     && hist_side (dapply_step ds x) (apply_step cmd (inline g hid) st x) h'
